@@ -187,7 +187,7 @@ static bool mtd_print(TickitTermDriver *ttd, const char *str, size_t len)
     cell->pen = tickit_pen_clone(mtd->pen);
 
     // Empty out the other cells for doublewidth
-    for(start.columns++; start.columns < pos.columns; start.columns++) {
+    for(start.columns++; start.columns < pos.columns && start.columns < mtd->cols; start.columns++) {
       cell = linecells[start.columns];
 
       if(cell->str)
